@@ -3,6 +3,9 @@ pub mod c17;
 
 /// Entry point of the engine binary.
 pub fn engine_main() -> ! {
+    if let Ok(spec) = std::env::var("VERIF_C17_CHILD") {
+        c17::sync_root_child(&spec);
+    }
     common::set_fuzz_registry(fuzz_registry());
     let env = common::Env::from_args();
     let code = match env.property.as_str() {
